@@ -65,21 +65,15 @@ def mk_sequence(it, data, alphabet="NT_EXTENDED_GAPPED", **kw):
 
 
 def chrom_parent(it, seq, seq_id="chr1", alphabet="NT_EXTENDED_GAPPED"):
-    """Parent(id, sequence=Sequence(seq, alphabet, type=CHROMOSOME)) - what io.parser.seq_to_parent builds"""
-    st = it.enum("SequenceType")
-    return mk_parent(it, id=seq_id, sequence=mk_sequence(it, seq, alphabet, id=seq_id, type=st["CHROMOSOME"]))
+    """the whole-chromosome parent exactly as the library's own io.parser.seq_to_parent builds it (interpreted)"""
+    f = it.repo.fn("io.parser:seq_to_parent")
+    return it.call_func(f, [seq], {"alphabet": it.enum("Alphabet")[alphabet], "seq_id": seq_id}, None, 0)
 
 
 def chunk_parent(it, genome, start, end, seq_id="chr1", alphabet="NT_EXTENDED_GAPPED"):
-    """what io.parser.seq_chunk_to_parent builds for genome[start:end]"""
-    from .lockernel import mk_single
-    st = it.enum("SequenceType")
-    S = it.enum("Strand")
-    chrom = mk_parent(it, id=seq_id, sequence_type=st["CHROMOSOME"])
-    loc = it.apply(ClassTok("SingleInterval"), [start, end, S["PLUS"]], {"parent": chrom}, None, 0)
-    seq = mk_sequence(it, genome[start:end], alphabet, id=f"{seq_id}:{start}-{end}", type=st["SEQUENCE_CHUNK"],
-                      parent=mk_parent(it, location=loc))
-    return mk_parent(it, id=f"{seq_id}:{start}-{end}", sequence=seq)
+    """the chunk parent exactly as io.parser.seq_chunk_to_parent builds it for genome[start:end] (interpreted)"""
+    f = it.repo.fn("io.parser:seq_chunk_to_parent")
+    return it.call_func(f, [genome[start:end], seq_id, start, end], {"alphabet": it.enum("Alphabet")[alphabet]}, None, 0)
 
 
 def mk_gene(it, transcripts, **kw):
